@@ -3,7 +3,7 @@ from .core import BASE_TRUST, LEAN, Problem
 
 META = {
     "category": "proof",
-    "text": "PARTIAL. Lean 4 proof, over facts regenerated from /repo on every run (extract/errfacts: go/ast + go/types over every package of the module), of: the loaders' totality and rectangularity (csv/tsv, ltsv, fixed-length: EVERY character string under EVERY option vector decodes to an error or to a table whose records all have the header's length - theorems csv_loader_total, ltsv_loader_total, fixed_loader_total, re-using C02); the error -> exit-code table (exit_code_total: every constructor of lib/query/error.go passes a return code of the manual's Return Code table or one of the three documented dynamic codes EXIT n / TRIGGER ERROR n / 128+signal; return_codes_documented, exit_default_documented, error_numbers_distinct, ctor_numbers_known, ctor_number_determines_code); the listed index-guard fragments (strToTime_index_in_range: every s[i] of value.StrToTime under the path conditions on len(s) read off the source is in range for every length; limit_in_bounds, offset_in_bounds, limit_percent_nan_refused from C07; cursor_index_inv from C16); and two static absence facts: no method call on an error variable where a DIFFERENT error variable is the one known non-nil (nil_error_sites_except_known) and no recover() guarded by state another goroutine sets (recover_unconditional_except_known) - each open site is reported as nilerr:<file>:<function>:<expr> / recover:<file>:<function>:<guard>. EXPLORATION for the rest of the property (a universally quantified absence over the whole program): process-level fuzzing of the real binary - arbitrary and mutated bytes x 6 formats x delimiter / positions / encoding / no-header / allow-uneven-fields / without-null / json-query as file, table object and stdin, with the rectangularity of the loaded view checked directly on the real loader; every key of the Functions / AggregateFunctions / AnalyticFunctions tables with 0-5 boundary arguments (scalar and over a 200-row table with --cpu 4); every clause and statement kind of the manual with holes filled from a boundary pool; file-system conditions (missing file, directory / dangling symlink / loop / FIFO in place of a file, unwritable targets of -o and CREATE TABLE, removed working directory, stale lock files). Oracle: exit code documented, no 'Fatal Error' / Go panic text, 20 s wall-clock bound, rectangular view. The evidence lists exactly which functions, clauses, statements, options, formats, encodings, file-system conditions, exit codes and error classes were driven, and which generated function names were NOT",
+    "text": "PARTIAL. Lean 4 proof, over facts regenerated from /repo on every run (extract/errfacts: go/ast + go/types over every package of the module), of: the loaders' totality and rectangularity (csv/tsv, ltsv, fixed-length: EVERY character string under EVERY option vector decodes to an error or to a table whose records all have the header's length - theorems csv_loader_total, ltsv_loader_total, fixed_loader_total, re-using C02); the error -> exit-code table (exit_code_total: every constructor of lib/query/error.go passes a return code of the manual's Return Code table or one of the three documented dynamic codes EXIT n / TRIGGER ERROR n / 128+signal; return_codes_documented, exit_default_documented, error_numbers_distinct, ctor_numbers_known, ctor_number_determines_code); the listed index-guard fragments (strToTime_index_in_range: every s[i] of value.StrToTime under the path conditions on len(s) read off the source is in range for every length; limit_in_bounds, offset_in_bounds, limit_percent_nan_refused from C07; cursor_index_inv from C16); and two static absence facts: no method call on an error variable where a DIFFERENT error variable is the one known non-nil (nil_error_sites_except_known) and no recover() guarded by state another goroutine sets (recover_unconditional_except_known) - each open site is reported as nilerr:<file>:<function>:<expr> / recover:<file>:<function>:<guard>. EXPLORATION for the rest of the property (a universally quantified absence over the whole program): process-level fuzzing of the real binary - arbitrary and mutated bytes x 6 formats x delimiter / positions / encoding / no-header / allow-uneven-fields / without-null / json-query as file, table object and stdin, with the rectangularity of the loaded view checked directly on the real loader; every key of the Functions / AggregateFunctions / AnalyticFunctions tables with 0-5 boundary arguments (scalar and over a 200-row table with --cpu 4); an IN-PROCESS function fuzzer (child processes of the harness call query.Functions[name] and the aggregate functions directly, under recover(), a memory limit and a watchdog: arity 0, ALL single values, ALL pairs over a typed compact pool of ~210 values [int64 / float boundaries, NULL, ternaries, datetimes, strings, every 1-character string over a 20-symbol alphabet, grammar-generated FORMAT / DATETIME_FORMAT strings, JSON texts, JSON queries incl. lone quotes and truncated forms, regular expressions, encoding / unit names] plus every 2-character string x 8 partners, ALL triples over a 16-value pool, sampled 3-5-tuples: ~8 million calls per run; every recovered panic / stall is CONFIRMED on the real binary as csvq 'SELECT fn(<literals>)' before it is reported); JSON_OBJECT / JSON output key paths (aliases with dots, brackets, duplicates, empty) and malformed JSON queries through JSON_VALUE / JSON_ROW / JSON_TABLE / JSON_INLINE / JSON() / JSONL() / --json-query / SET @@JSON_QUERY; every clause and statement kind of the manual with holes filled from a boundary pool; file-system conditions (missing file, directory / dangling symlink / loop / FIFO in place of a file, unwritable targets of -o and CREATE TABLE, removed working directory, stale lock files). Oracle: exit code documented, no 'Fatal Error' / Go panic text, 20 s wall-clock bound, rectangular view. The evidence lists exactly which functions, clauses, statements, options, formats, encodings, file-system conditions, exit codes and error classes were driven, and which generated function names were NOT",
     "design_ref": "DESIGN.md section 5, C19",
     "note": "proof for the loaders' totality/rectangularity (CSV/TSV/LTSV/fixed; JSON/JSONL loaders are explored only), the error-code table and the listed index-guard fragments; exploration for everything else => partial. Trusted: Lean kernel; extract/errfacts (syntactic, fails closed; nil-error and recover facts are intraprocedural patterns, not a nil-ness analysis); the loader models of C02 (tied to the code by C02's own correspondence); the harness oracle (text patterns, exit status). Not generated on purpose: external commands ($ ..., CALL), check-update (network), URLs, non-terminating programs (unbounded recursion / WHILE TRUE); children run under ulimit -v 3000000 and running out of memory under that limit is counted, not reported",
     "technique": "Lean 4 machine-checked proof over regenerated facts (kernel evaluation) + re-used loader / LIMIT / cursor theorems + process-level fuzzing of the real binary with a classifying, shrinking oracle",
@@ -124,16 +124,29 @@ def run(run):
             "error_classes": {k[12:]: v for k, v in dist.items() if k.startswith("error_class:")},
             "observations_not_laws": {k[9:]: v for k, v in dist.items() if k.startswith("observed:")},
             "inprocess_rectangularity_probes": dist.get("inprocess_rect_probe", 0),
+            "json_key_paths": driven("jsonpath:"), "json_queries": driven("jsonquery:"), "json_routes": driven("route:"),
+        },
+        "inprocess_function_fuzzer": {
+            "calls": dist.get("inproc_calls", 0),
+            "calls_per_function": {k[7:]: v for k, v in dist.items() if k.startswith("inproc:")},
+            "calls_per_arity": {k[13:]: v for k, v in dist.items() if k.startswith("inproc_arity:")},
+            "outcomes": {k[15:]: v for k, v in dist.items() if k.startswith("inproc_outcome:")},
+            "candidates": dist.get("inproc_candidates", 0),
+            "candidates_by_function_and_frame": {k[20:]: v for k, v in dist.items() if k.startswith("inproc_candidate_at:")},
+            "confirmation_jobs_confirmed_on_the_binary": dist.get("inproc_confirmed", 0),
+            "confirmation_jobs_not_confirmed": {k[19:]: v for k, v in dist.items() if k.startswith("inproc_unconfirmed:")},
+            "child_restarts": dist.get("inproc_child_restarts", 0),
+            "abandoned": [k[17:] for k in dist if k.startswith("inproc_abandoned:")],
         },
         "not_driven": dict(not_driven, deliberately=["CALL (runs external programs)", "external command statements ($ ...)", "check-update sub-command and URLs (network)", "unbounded recursion / endless loops (non-terminating programs)", "interactive shell beyond an empty stdin"]),
     }
     # the full per-key distribution is summarised above; keep the stream entry small
     for s in run.cov["streams"].values():
         d = s.get("distribution", {})
-        s["distribution"] = {k: v for k, v in d.items() if k.startswith(("group:", "law_seen:", "exit:", "observed:"))}
+        s["distribution"] = {k: v for k, v in d.items() if k.startswith(("group:", "law_seen:", "exit:", "observed:", "inproc_c", "inproc_o", "inproc_a"))}
     return run.finish(
         level="proof",
-        rule="proof part: obligations = theorems of Csvq/Props/C19.lean over Csvq/Gen/ErrFacts.lean regenerated on this run. Exploration part: one case = one run of the real csvq binary in a fresh directory (corpus of earlier findings; file-system conditions; clause / statement templates with holes filled from a 190-value boundary pool and random command-line options; every function of the three tables with 0-5 pool / column arguments, scalar and over 200 rows with --cpu 4; arbitrary / mutated / transcoded bytes x format x import options as file, table object and stdin); non-trivial = distinct (group, set of tags [function, arity, call site, clause, statement, options, format, byte source, encoding, fs condition], exit code)",
+        rule="proof part: obligations = theorems of Csvq/Props/C19.lean over Csvq/Gen/ErrFacts.lean regenerated on this run. Exploration part: one case = one run of the real csvq binary in a fresh directory (corpus of earlier findings; file-system conditions; clause / statement templates with holes filled from a 190-value boundary pool and random command-line options; every function of the three tables with 0-5 pool / column arguments, scalar and over 200 rows with --cpu 4; in-process calls of every scalar and aggregate function (each call counted as one evaluation; exhaustive singles / pairs / triples over typed pools, see inprocess_function_fuzzer), candidates confirmed on the binary; JSON key-path and JSON-query routes; arbitrary / mutated / transcoded bytes x format x import options as file, table object and stdin); non-trivial = distinct (group, set of tags [function, arity, call site, clause, statement, options, format, byte source, encoding, fs condition], exit code) for process runs, distinct (function, arity) and (function, outcome class value/null/error/panic) for in-process calls",
         trusted_base=BASE_TRUST + [
             "extract/errfacts (go/ast + go/types, fails closed): constant tables, constructors, the manual's Return Code table, cli.Exit, nil-error and recover patterns, function tables, StrToTime index sites",
             "the loader models of C02 and the LIMIT / cursor models of C07 / C16 (each tied to the code by its own property's correspondence)",
